@@ -7,7 +7,8 @@ sufficient alignment; MaybeUninit results are fully initialised.  R-ATOMIC: in t
 after part of the destination has been written (path-sensitive write marker kept in the abstract heap)."""
 import re
 import terms as tm
-from common import api_roots, tydef, vec_info, leaves_plain, hidden_offsets, TRUSTED_COMMON
+from common import api_roots, tydef, vec_info, leaves_plain, hidden_offsets, TRUSTED_COMMON, rustdoc_of
+from runner import REPO
 from runner import norm_def_path
 
 LEVEL = 'proof'
@@ -90,6 +91,7 @@ def run(ctx):
         H = ctx.harness(cfg)
         n_roots = 0
         n_doc = 0
+        n_rdoc = 0
         n_atomic = 0
         control_from_slice = False
         control_align_store = False
@@ -106,6 +108,7 @@ def run(ctx):
             int_fn = is_int_type_fn(name, it)
             bad = []
             doc = 0
+            doc_named = set()
             seen = set()
             r = runs[0][1]
             for p in [p for (_l, rr) in runs for p in rr.panics]:
@@ -114,6 +117,8 @@ def run(ctx):
                 ok, why = classify(name, it, p, int_fn)
                 if ok:
                     doc += 1
+                    if why.startswith('documented:'):
+                        doc_named.add(why)
                 else:
                     key = (p.kind, p.fn)
                     if key in seen:
@@ -218,6 +223,17 @@ def run(ctx):
                                   'late_panic_sites': len(late)})
                 else:
                     ctx.holds('R-ATOMIC', cfg, name)
+            # R-DOC: "the only panics are the documented ones": an inherent public function that owns a slice-length / index panic says so in its rustdoc
+            if doc_named and not it.get('trait') and it.get('vis') == 'pub':
+                n_rdoc += 1
+                text = rustdoc_of(REPO, it)
+                if text is None:
+                    ctx.unverifiable('R-DOC', cfg, name, 'source of %s not readable' % it['file'])
+                elif 'panic' not in text.lower():
+                    ctx.violation('R-DOC', cfg, name, {'file': it['file'], 'line': it['line'],
+                                  'problem': 'the function can panic (%s) but its rustdoc does not mention a panic' % sorted(doc_named)[0]})
+                else:
+                    ctx.holds('R-DOC', cfg, name)
             if doc:
                 n_doc += 1
                 if (it.get('name') == 'from_slice'):
@@ -321,6 +337,7 @@ def run(ctx):
                     ctx.holds('R-BOUNDS', cfg, name)
         ctx.floor('reachable roots analysed (%s)' % cfg, n_roots, FLOOR_ROOTS)
         ctx.floor('roots with a documented panic site (%s)' % cfg, n_doc, FLOOR_DOC_PANIC)
+        ctx.floor('functions whose rustdoc must announce their panic (%s)' % cfg, n_rdoc, 125)
         ctx.control('documented from_slice length assert is seen (%s)' % cfg, control_from_slice)
         if cfg.startswith('sse2'):
             ctx.control('16-byte aligned raw store into a local is seen (%s)' % cfg, control_align_store, '_mm_store_ps into Align16 temporaries')
